@@ -107,13 +107,14 @@ var menus = map[string]string{
 	"M3T":  "PP0 VCT", // votes whose (valid) proof carries a non-standard type in the part its Byzantine leader re-signed
 	"M4":   "PC NV",
 	"M4F":  "PC NVF",
-	"M4W":  "PC NVW NVH",
+	"M4W":  "PC NVW NVH NVB",
 	"M6":   "PC XT",
 	"M7":   "PC OUT",
-	"MALL": "PC PP0 VC NV NVF NVW NVH XT OUT",
+	"MALL": "PC PP0 VC NV NVF NVW NVH NVB XT OUT",
 	"MN":   "PC NVN PP0",
-	"MZ":   "PC PP0 NV NVM VC",
+	"MZ":   "PC PP0 NV NVM NVB VC",
 	"ME":   "NVE",
+	"MB":   "PC NVB", // NEW_VIEWs of a Byzantine leader, genuine in every signed part, with and without a substituted block body
 	"MZE":  "PC PP0 NV NVE VC", // + NEW_VIEW / vote locked on an empty-hash proof forged from proof-less VIEW_CHANGE signatures
 	"M5":   "PC PPV", // only used to (re)generate the witness of the recorded stand-alone-PREPREPARE finding
 }
@@ -216,6 +217,9 @@ func plan(prop, tier string) []run {
 		add("K1", "MALL", 0, mul*15*time.Second)
 		add("K2", "MALL", 0, mul*15*time.Second)
 		add("K6", "M7", 0, mul*10*time.Second)
+		add("K3b@v4a", "M1", 0, mul*20*time.Second) // two correct members of weights 3,4 (both needed), views up to 4: exhaustive (~2.6e5 states)
+		add("K3b@v2", "M3", 0, mul*10*time.Second)  // every vote variant of two Byzantine members for the correct leader of view 2: exhaustive
+		add("K1@v1a", "MB", 0, mul*25*time.Second)  // Byzantine leader of view 1 substitutes the (unsigned) block body of its NEW_VIEW: exhaustive
 		add("K3b@v4a", "ME", 0, mul*20*time.Second) // two Byzantine leaders, views up to 4: NEW_VIEW / vote locked on an empty-hash proof forged from VIEW_CHANGE signatures: exhaustive
 	}
 	if q {
@@ -245,6 +249,9 @@ func plan(prop, tier string) []run {
 		if k != "K5" {
 			add(k, "MALL", 0, 40*time.Second)
 		}
+	}
+	for _, x := range [][2]string{{"K3b@v3a", "M3"}, {"K3b@v4a", "M3"}, {"K3b@v3a", "M4"}, {"K3b@v4a", "MB"}, {"K3b@v3a", "M2"}, {"K1@v5a", "ME"}} {
+		add(x[0], x[1], 0, 60*time.Second) // deeper view chains on the two-correct-member committee (depth-bounded)
 	}
 	add("K1", "M1", 2, 90*time.Second)
 	add("K2", "M2", 2, 90*time.Second)
